@@ -33,6 +33,8 @@ type infPoint struct {
 	Ell    bool     `json:"ell"`
 	Target string   `json:"target"`
 	Real   string   `json:"real,omitempty"` // replay only: the realisation that failed ("xgox")
+	Fam    []int    `json:"fam,omitempty"`  // kind "ti": overloaded generic type name (candidates in order)
+	First  int      `json:"first"`          // kind "ti": index of the first candidate that instantiates, 0 if none
 	Sig    int      `json:"sig"`
 	Expl   []string `json:"expl"`
 	Args   []string `json:"args"`
@@ -86,6 +88,9 @@ const infVars = "var vi int\nvar vf float64\nvar vs string\nvar vmy ov.MyInt\nva
 var infArgText = map[string]string{"c1": "1", "c15": "1.5", "cs": `"s"`, "nil": "nil"}
 
 func (p infPoint) text() string {
+	if p.Kind == "ti" {
+		return fmt.Sprintf("ov.%s[%s]", tiName(p.Fam), strings.Join(p.Expl, ", "))
+	}
 	if p.Kind == "fv" {
 		ex := ""
 		if len(p.Expl) > 0 {
@@ -113,6 +118,9 @@ func (p infPoint) text() string {
 }
 
 func (p infPoint) want() string {
+	if p.Kind == "ti" {
+		return fmt.Sprintf("ov.%s[%s]", tiCandName(p.Fam, p.First), strings.Join(p.Expl, ","))
+	}
 	if p.Kind == "fv" {
 		return strings.Join(p.TArgs, ", ")
 	}
@@ -133,6 +141,9 @@ func (p infPoint) class() string {
 		default:
 			cs = append(cs, "typed")
 		}
+	}
+	if p.Kind == "ti" {
+		return fmt.Sprintf("type-instantiation/%s/%d-arguments", tiName(p.Fam), len(p.Expl))
 	}
 	if p.Kind == "fv" {
 		return fmt.Sprintf("function-value/%s/explicit=%d/%s", infFvNames[p.Sig], len(p.Expl), p.Target)
@@ -155,7 +166,9 @@ func infReference(ovPkg *types.Package, base types.Importer, pts []infPoint) ([]
 	b.WriteString("package q\nimport \"ov\"\n" + infVars + "func body() {\n")
 	first := strings.Count(b.String(), "\n") + 1
 	for i, p := range pts {
-		if p.Kind == "fv" {
+		if p.Kind == "ti" {
+			fmt.Fprintf(&b, "_ = 0 // type instantiation %d: see tiReference\n", i)
+		} else if p.Kind == "fv" {
 			fmt.Fprintf(&b, "var x%d %s = %s; _ = x%d\n", i, p.Target, strings.TrimSuffix(strings.TrimPrefix(p.text(), p.Target+"("), ")"), i)
 		} else {
 			fmt.Fprintf(&b, "_ = %s\n", p.text())
@@ -269,6 +282,35 @@ type infG struct {
 	fault    string
 }
 
+// generic types of the "ti" points: a single generic type is TG<i>, an overloaded name is OT<i>x<j> with candidates OT<i>x<j>__0, __1
+var tiDecl = map[int]string{1: "[T any] struct{ V T }", 2: "[T comparable] struct{ V T }", 3: "[T int | float64] struct{ V T }", 4: "[K comparable, V any] map[K]V",
+	5: "[T ~int] struct{ V T }", 6: "[S ~[]E, E any] struct{ V S }"}
+
+func tiName(fam []int) string {
+	if len(fam) == 1 {
+		return fmt.Sprintf("TG%d", fam[0])
+	}
+	return fmt.Sprintf("OT%dx%d", fam[0], fam[1])
+}
+
+func tiCandName(fam []int, first int) string {
+	if len(fam) == 1 || first == 0 {
+		return tiName(fam)
+	}
+	return fmt.Sprintf("%s__%d", tiName(fam), first-1)
+}
+
+func tiFixture() string {
+	var b strings.Builder
+	for i := 1; i <= 6; i++ {
+		fmt.Fprintf(&b, "type TG%d%s\n", i, tiDecl[i])
+	}
+	for _, f := range [][2]int{{1, 4}, {4, 1}, {2, 1}, {3, 5}, {5, 3}, {6, 4}} {
+		fmt.Fprintf(&b, "type OT%dx%d__0%s\ntype OT%dx%d__1%s\n", f[0], f[1], tiDecl[f[0]], f[0], f[1], tiDecl[f[1]])
+	}
+	return b.String()
+}
+
 var infXgox = map[int]string{15: "XCollect", 16: "XCast", 17: "XMk"}
 
 // call builds the call; real = "" (F[explicit...](args)) or "xgox" (the type-as-parameter form XF(explicit..., args))
@@ -342,6 +384,16 @@ func (w *infWorld) call(p infPoint, real string) (g infG) {
 	return g
 }
 
+func (w *infWorld) tiType(s string) types.Type {
+	switch s {
+	case "func(int) int":
+		return w.targetType("func(int) int")
+	case "map[string]int":
+		return types.NewMap(types.Typ[types.String], types.Typ[types.Int])
+	}
+	return w.explType(s)
+}
+
 // target function types of the function-value points
 func (w *infWorld) targetType(s string) types.Type {
 	ti, ts := types.Typ[types.Int], types.Typ[types.String]
@@ -401,6 +453,46 @@ func (w *infWorld) funcValue(p infPoint, name string) (g infG) {
 	return g
 }
 
+// tiReference: go/types on every candidate of every "ti" point; returns the index of the first candidate that instantiates
+func tiReference(ovPkg *types.Package, base types.Importer, pts []infPoint) (map[int]int, error) {
+	var b strings.Builder
+	b.WriteString("package q\nimport \"ov\"\n")
+	first := strings.Count(b.String(), "\n") + 1
+	type ln struct{ pt, cand int }
+	var lines []ln
+	for i, p := range pts {
+		if p.Kind != "ti" {
+			continue
+		}
+		for k := range p.Fam {
+			fmt.Fprintf(&b, "var _ ov.%s[%s]\n", tiCandName(p.Fam, k+1), strings.Join(p.Expl, ", "))
+			lines = append(lines, ln{i, k + 1})
+		}
+	}
+	fset := token.NewFileSet()
+	f, err := parser.ParseFile(fset, "q.go", b.String(), 0)
+	if err != nil {
+		return nil, fmt.Errorf("type-instantiation reference does not parse: %v", err)
+	}
+	bad := map[int]bool{}
+	conf := types.Config{Importer: ovImporter{ovPkg, base}, Error: func(e error) {
+		if te, ok := e.(types.Error); ok {
+			bad[fset.Position(te.Pos).Line] = true
+		}
+	}}
+	conf.Check("q", fset, []*ast.File{f}, nil)
+	out := map[int]int{}
+	for j, l := range lines {
+		if _, seen := out[l.pt]; !seen {
+			out[l.pt] = 0
+		}
+		if !bad[first+j] && out[l.pt] == 0 {
+			out[l.pt] = l.cand
+		}
+	}
+	return out, nil
+}
+
 func runC07(tier, replay string) {
 	run := ev.Start("C07", tier, "model_checking")
 	_, base := sharedImporter()
@@ -415,11 +507,11 @@ func runC07(tier, replay string) {
 		states, transitions = 1, 1
 	} else {
 		forms := `{"vi","vf","vs","vmy","vsl","vmysl","vslf","vm","vpi","vfis","vfii","c1","c15","cs","nil"}`
-		cfgs := []string{fmt.Sprintf("INIT Init\nNEXT Next\nCONSTANTS\n  SigIds = {1,2,3,4,5,6,7,8,9,10,11,12,13,14,15,16,17}\n  Forms = %s\n  ExplNames = {\"int\",\"float64\",\"MySl\"}\n  MaxExpl = 1\n  MaxVariadic = 2\n  FvSigs = {1,2,3,4,5}\nINVARIANTS ExplicitRespected InferredSatisfies Symmetric Emit\nCHECK_DEADLOCK FALSE\n", forms)}
+		cfgs := []string{fmt.Sprintf("INIT Init\nNEXT Next\nCONSTANTS\n  SigIds = {1,2,3,4,5,6,7,8,9,10,11,12,13,14,15,16,17}\n  Forms = %s\n  ExplNames = {\"int\",\"float64\",\"MySl\"}\n  MaxExpl = 1\n  MaxVariadic = 2\n  FvSigs = {1,2,3,4,5}\n  TypeInst = TRUE\nINVARIANTS ExplicitRespected InferredSatisfies Symmetric Emit\nCHECK_DEADLOCK FALSE\n", forms)}
 		if tier == "thorough" {
 			cfgs = append(cfgs,
-				fmt.Sprintf("INIT Init\nNEXT Next\nCONSTANTS\n  SigIds = {4,5,7,8,9,14,16,17}\n  Forms = %s\n  ExplNames = {\"int\",\"float64\",\"string\",\"MyInt\",\"MySl\",\"[]int\"}\n  MaxExpl = 2\n  MaxVariadic = 0\n  FvSigs = {1,2,3,4,5}\nINVARIANTS ExplicitRespected InferredSatisfies Symmetric Emit\nCHECK_DEADLOCK FALSE\n", forms),
-				fmt.Sprintf("INIT Init\nNEXT Next\nCONSTANTS\n  SigIds = {3,11,15}\n  Forms = %s\n  ExplNames = {\"int\",\"float64\",\"MyInt\"}\n  MaxExpl = 2\n  MaxVariadic = 3\n  FvSigs = {}\nINVARIANTS ExplicitRespected InferredSatisfies Symmetric Emit\nCHECK_DEADLOCK FALSE\n", `{"vi","vf","vmy","vsl","vmysl","c1","c15","cs","nil"}`))
+				fmt.Sprintf("INIT Init\nNEXT Next\nCONSTANTS\n  SigIds = {4,5,7,8,9,14,16,17}\n  Forms = %s\n  ExplNames = {\"int\",\"float64\",\"string\",\"MyInt\",\"MySl\",\"[]int\"}\n  MaxExpl = 2\n  MaxVariadic = 0\n  FvSigs = {1,2,3,4,5}\n  TypeInst = TRUE\nINVARIANTS ExplicitRespected InferredSatisfies Symmetric Emit\nCHECK_DEADLOCK FALSE\n", forms),
+				fmt.Sprintf("INIT Init\nNEXT Next\nCONSTANTS\n  SigIds = {3,11,15}\n  Forms = %s\n  ExplNames = {\"int\",\"float64\",\"MyInt\"}\n  MaxExpl = 2\n  MaxVariadic = 3\n  FvSigs = {}\n  TypeInst = FALSE\nINVARIANTS ExplicitRespected InferredSatisfies Symmetric Emit\nCHECK_DEADLOCK FALSE\n", `{"vi","vf","vmy","vsl","vmysl","c1","c15","cs","nil"}`))
 		}
 		seen := map[string]bool{}
 		for ci, cfg := range cfgs {
@@ -427,7 +519,7 @@ func runC07(tier, replay string) {
 			res, err := tlc.Run(tlc.Opts{SpecDir: SpecDir, Module: "Infer", Cfg: cfg, Workers: tierWorkers(tier), Heavy: true, Timeout: 30 * time.Minute,
 				OnJSON: func(l string) {
 					var p infPoint
-					if json.Unmarshal([]byte(l), &p) == nil && p.Sig > 0 {
+					if json.Unmarshal([]byte(l), &p) == nil && (p.Sig > 0 || p.Kind == "ti") {
 						k := p.text()
 						if !seen[k] {
 							seen[k] = true
@@ -449,7 +541,8 @@ func runC07(tier, replay string) {
 			transitions += res.Generated
 		}
 	}
-	refPkg, err := ovCheckFixture(infFixture)
+	fixture := infFixture + tiFixture()
+	refPkg, err := ovCheckFixture(fixture)
 	if err != nil {
 		run.Infra(fmt.Errorf("fixture package does not type-check: %v", err))
 	}
@@ -458,8 +551,21 @@ func runC07(tier, replay string) {
 	if err != nil {
 		run.Infra(err)
 	}
+	tiT, err := tiReference(refPkg, base, pts)
+	if err != nil {
+		run.Infra(err)
+	}
 	nacc := 0
 	for i, p := range pts {
+		if p.Kind == "ti" {
+			if tiT[i] != p.First {
+				run.Infra(fmt.Errorf("Infer.tla disagrees with go/types on type instantiation (specification defect, not a verdict): %s: S first=%d, T first=%d", p.text(), p.First, tiT[i]))
+			}
+			if p.Ok {
+				nacc++
+			}
+			continue
+		}
 		t := tref[i]
 		if t.ok != p.Ok || (t.ok && t.res != p.want()) {
 			run.Infra(fmt.Errorf("Infer.tla disagrees with go/types (specification defect, not a verdict): %s: S ok=%v %s, T ok=%v %s %s", p.text(), p.Ok, p.want(), t.ok, t.res, t.msg))
@@ -473,7 +579,7 @@ func runC07(tier, replay string) {
 	}
 	run.Set("spec_vs_gotypes_agreement", fmt.Sprintf("accept/reject and the full type-argument vector: S = T on all %d points (%d accepted)", len(pts), nacc))
 	// G
-	gogenPkg, err := ovCheckFixture(infFixture)
+	gogenPkg, err := ovCheckFixture(fixture)
 	if err != nil {
 		run.Infra(err)
 	}
@@ -511,6 +617,48 @@ func runC07(tier, replay string) {
 			}
 		}
 		for _, p := range batches[bi] {
+			if p.Kind == "ti" {
+				w.errs = nil
+				var targs []types.Type
+				for _, t := range p.Expl {
+					targs = append(targs, w.tiType(t))
+				}
+				var got types.Type
+				var g infG
+				func() {
+					defer func() {
+						if e := recover(); e != nil {
+							g.rejected, g.msg = true, fmt.Sprint(e)
+							if _, rt := e.(interface{ RuntimeError() }); rt {
+								g.fault = g.msg
+							}
+						}
+					}()
+					got = w.pkg.Instantiate(w.ov.Ref(tiName(p.Fam)).Type(), targs)
+				}()
+				if len(w.errs) > 0 {
+					g.rejected, g.msg = true, strings.Join(w.errs, "; ")
+				}
+				if got != nil && !g.rejected {
+					g.res = strings.ReplaceAll(types.TypeString(got, func(p *types.Package) string { return p.Name() }), ", ", ",")
+					g.expr = g.res
+				}
+				q := p
+				judgeTi := q
+				_ = judgeTi
+				run.Eval(p.text())
+				switch {
+				case g.fault != "":
+					run.Fail("fault/"+p.class(), fmt.Sprintf("%s: %s", p.text(), g.fault), p)
+				case p.Ok && g.rejected:
+					run.Fail("rejected-although-go-instantiates/"+p.class(), fmt.Sprintf("%s: candidate %d instantiates; the builder reports: %s", p.text(), p.First-1, firstLines(g.msg, 1)), p)
+				case !p.Ok && !g.rejected:
+					run.Fail("accepted-although-go-rejects/"+p.class(), fmt.Sprintf("%s: no candidate instantiates; Package.Instantiate returns %s", p.text(), g.res), p)
+				case p.Ok && g.res != p.want():
+					run.Fail("instantiated-type-differs/"+p.class(), fmt.Sprintf("%s: the first candidate that instantiates gives %s; Package.Instantiate returns %s", p.text(), p.want(), g.res), p)
+				}
+				continue
+			}
 			if p.Kind == "fv" {
 				// a rejected initialiser leaves the declaration half built: every function-value point gets its own package
 				initMu.Lock()
